@@ -411,7 +411,7 @@ theorem FlowOK.fresh (cm sm cm' : MuxL) (c : Nat) (p : ProxyS)
     rw [hcm, hasEof_append, hasEof_noStream c _ h1]; simp [hasEof, hce]
   refine ⟨?_, ?_, ?_, ?_⟩
   · refine { pre := ?_, exact := ?_, shutOk := ?_, conn := ?_, fresh := ?_, clean := ?_, eofNM := ?_,
-             gone := ?_, dead := ?_, srcBuf := ?_, snkBuf := ?_, srcEv := ?_, snkEv := ?_ }
+             gone := ?_, dead := ?_, srcBuf := ?_, snkBuf := ?_, srcEv := ?_, snkEv := ?_, goneShut := ?_ }
     all_goals simp only [upSrc, upSink, SV, goneSink]
     · exact List.prefix_refl _
     · right; exact ⟨[], by simp [hdo], by simp⟩
@@ -428,8 +428,9 @@ theorem FlowOK.fresh (cm sm cm' : MuxL) (c : Nat) (p : ProxyS)
     · intro _; trivial
     · intro _; trivial
     · intro h; cases h
+    · intro h; cases h
   · refine { pre := ?_, exact := ?_, shutOk := ?_, conn := ?_, fresh := ?_, clean := ?_, eofNM := ?_,
-             gone := ?_, dead := ?_, srcBuf := ?_, snkBuf := ?_, srcEv := ?_, snkEv := ?_ }
+             gone := ?_, dead := ?_, srcBuf := ?_, snkBuf := ?_, srcEv := ?_, snkEv := ?_, goneShut := ?_ }
     all_goals simp only [downSrc, downSink, KV, goneSrc]
     · exact List.prefix_refl _
     · right; exact ⟨[], by simp [dataOf_noStream c _ h2], by simp⟩
@@ -444,6 +445,7 @@ theorem FlowOK.fresh (cm sm cm' : MuxL) (c : Nat) (p : ProxyS)
     · intro h; cases h
     · intro h; cases h
     · intro _; trivial
+    · intro _ h; cases h
   · intro q hq
     simp only [Option.some.injEq] at hq
     subst hq; exact ⟨rfl, rfl⟩
